@@ -16,31 +16,40 @@ theorem unesc_escEsc : unesc cESC_ESC = cESC := by simp [unesc, escEsc_ne_escEnd
 
 /-! ## reader on writer output -/
 
-theorem readGo_end_nil (rest : List Nat) : readGo (cEND :: rest) [] = readGo rest [] := by
-  simp [readGo]
+theorem readGo_end_nil (rest : List Nat) : readGo (cEND :: rest) [] false = readGo rest [] false := by
+  rw [readGo]; simp
 
 theorem readGo_end_cons (rest acc : List Nat) (h : acc ≠ []) :
-    readGo (cEND :: rest) acc = (acc, true, rest) := by
-  simp [readGo, h]
+    readGo (cEND :: rest) acc false = (acc, true, rest) := by
+  rw [readGo, if_pos rfl, if_pos h]
+
+theorem readGo_esc (c : Nat) (rest acc : List Nat) :
+    readGo (cESC :: c :: rest) acc false = readGo rest (acc ++ [unesc c]) false := by
+  rw [readGo, if_neg esc_ne_end, if_pos rfl, readGo]
+
+theorem readGo_plain (b : Nat) (rest acc : List Nat) (h1 : b ≠ cEND) (h2 : b ≠ cESC) :
+    readGo (b :: rest) acc false = readGo rest (acc ++ [b]) false := by
+  rw [readGo, if_neg h1, if_neg h2]
 
 theorem readGo_stuff (b : Nat) (rest acc : List Nat) :
-    readGo (stuff b ++ rest) acc = readGo rest (acc ++ [b]) := by
+    readGo (stuff b ++ rest) acc false = readGo rest (acc ++ [b]) false := by
   unfold stuff
   by_cases h1 : b = cEND
   · subst h1
-    simp only [if_true, List.cons_append, List.nil_append]
-    rw [readGo]; simp only [esc_ne_end, if_false, if_true]
-    rw [unesc_escEnd]
+    rw [if_pos rfl]
+    simp only [List.cons_append, List.nil_append]
+    rw [readGo_esc, unesc_escEnd]
   · by_cases h2 : b = cESC
     · subst h2
-      simp only [h1, if_false, if_true, List.cons_append, List.nil_append]
-      rw [readGo]; simp only [esc_ne_end, if_false, if_true]
-      rw [unesc_escEsc]
-    · simp only [h1, h2, if_false, List.cons_append, List.nil_append]
-      rw [readGo]; simp only [h1, h2, if_false]
+      rw [if_neg h1, if_pos rfl]
+      simp only [List.cons_append, List.nil_append]
+      rw [readGo_esc, unesc_escEsc]
+    · rw [if_neg h1, if_neg h2]
+      simp only [List.cons_append, List.nil_append]
+      rw [readGo_plain _ _ _ h1 h2]
 
 theorem readGo_stuffed (p rest : List Nat) : ∀ acc : List Nat, acc ++ p ≠ [] →
-    readGo (p.flatMap stuff ++ cEND :: rest) acc = (acc ++ p, true, rest) := by
+    readGo (p.flatMap stuff ++ cEND :: rest) acc false = (acc ++ p, true, rest) := by
   induction p with
   | nil => intro acc h; simp at h; simp [readGo_end_cons _ _ h]
   | cons b p ih =>
@@ -82,49 +91,184 @@ theorem readAllC_incomplete {s r : Buffered} {p : List Nat} (h : readPacketC s =
 
 /-! ## the chunked reader computes what the flat reader computes -/
 
-theorem readGoC_flat (s : Buffered) (acc : List Nat) (hw : s.WF 1) :
-    readGo s.flat acc = ((readGoC s acc).1, (readGoC s acc).2.1, (readGoC s acc).2.2.flat)
-    ∧ (readGoC s acc).2.2.WF 1 := by
-  fun_induction readGoC s acc
-  case case1 hn =>
-    rw [Buffered.next_none_flat hw hn]; simp [readGo]
-    exact ⟨Buffered.next_none_flat hw hn |>.symm, hw⟩
-  case case2 hacc hn =>
-    rw [Buffered.next_flat hn, readGo_end_cons _ _ hacc]
-    exact ⟨rfl, Buffered.next_wf hw hn⟩
-  case case3 hacc hn ih =>
-    have hacc' : _ = [] := Classical.not_not.mp hacc
-    rw [Buffered.next_flat hn, hacc', readGo_end_nil]
-    rw [hacc'] at ih
+theorem readGoC_flat (s : Buffered) (acc : List Nat) (e : Bool) (hw : s.WF 1) :
+    readGo s.flat acc e = ((readGoC s acc e).1, (readGoC s acc e).2.1, (readGoC s acc e).2.2.flat)
+    ∧ (readGoC s acc e).2.2.WF 1 := by
+  fun_induction readGoC s acc e
+  case case1 =>
+    have hn := ‹Buffered.next 1 _ = none›
+    have hf := Buffered.next_none_flat hw hn
+    rw [hf]
+    refine ⟨?_, hw⟩
+    rw [readGo]
+  case case2 =>
+    rename_i ih
+    have hn := ‹Buffered.next 1 _ = some (_, _)›
+    rw [Buffered.next_flat hn, readGo]
     exact ih (Buffered.next_wf hw hn)
-  case case4 hn2 hn hne =>
-    have hw1 := Buffered.next_wf hw hn
-    rw [Buffered.next_flat hn, Buffered.next_none_flat hw1 hn2]
-    simp [readGo, hne]
-    exact ⟨Buffered.next_none_flat hw1 hn2 |>.symm, hw1⟩
-  case case5 hn2 hn hne ih =>
-    have hw1 := Buffered.next_wf hw hn
-    rw [Buffered.next_flat hn, Buffered.next_flat hn2]
-    rw [readGo]; simp only [hne, if_false, if_true]
-    exact ih (Buffered.next_wf hw1 hn2)
-  case case6 hn h1 h2 ih =>
-    rw [Buffered.next_flat hn]
-    rw [readGo]; simp only [h1, h2, if_false]
+  case case3 =>
+    have hn := ‹Buffered.next 1 _ = some (_, _)›
+    obtain rfl : _ = false := Bool.eq_false_iff.mpr ‹¬ _ = true›
+    rw [Buffered.next_flat hn, readGo_end_cons _ _ ‹_ ≠ []›]
+    exact ⟨rfl, Buffered.next_wf hw hn⟩
+  case case4 =>
+    rename_i ih
+    have hn := ‹Buffered.next 1 _ = some (_, _)›
+    obtain rfl : _ = false := Bool.eq_false_iff.mpr ‹¬ _ = true›
+    have hacc' : _ = [] := Classical.not_not.mp ‹¬ _ ≠ []›
+    rw [hacc'] at ih ⊢
+    rw [Buffered.next_flat hn, readGo_end_nil]
+    exact ih (Buffered.next_wf hw hn)
+  case case5 =>
+    rename_i ih
+    have hn := ‹Buffered.next 1 _ = some (_, _)›
+    obtain rfl : _ = false := Bool.eq_false_iff.mpr ‹¬ _ = true›
+    rw [Buffered.next_flat hn, readGo, if_neg esc_ne_end, if_pos rfl]
+    exact ih (Buffered.next_wf hw hn)
+  case case6 =>
+    rename_i h1 h2 ih
+    have hn := ‹Buffered.next 1 _ = some (_, _)›
+    obtain rfl : _ = false := Bool.eq_false_iff.mpr ‹¬ _ = true›
+    rw [Buffered.next_flat hn, readGo_plain _ _ _ h1 h2]
     exact ih (Buffered.next_wf hw hn)
 
 theorem readAllC_flat (s : Buffered) (hw : s.WF 1) : readAllC s = readAll s.flat := by
   fun_induction readAllC s
   case case1 p r h ps t hrec ih =>
-    have := readGoC_flat _ [] hw
+    have := readGoC_flat _ [] false hw
     unfold readPacketC at h
     rw [h] at this
     have hc : readPacket _ = (p, true, r.flat) := this.1
     rw [readAll_complete hc, ← ih this.2, hrec]
   case case2 p r h =>
-    have := readGoC_flat _ [] hw
+    have := readGoC_flat _ [] false hw
     unfold readPacketC at h
     rw [h] at this
     have hc : readPacket _ = (p, false, r.flat) := this.1
     rw [readAll_incomplete hc]
+
+/-! ## FCS-16: the two appended bytes drive any state to a constant -/
+
+theorem lt16_cases {i : Nat} (h : i < 16) : i = 0 ∨ i = 1 ∨ i = 2 ∨ i = 3 ∨ i = 4 ∨ i = 5 ∨ i = 6 ∨ i = 7 ∨
+    i = 8 ∨ i = 9 ∨ i = 10 ∨ i = 11 ∨ i = 12 ∨ i = 13 ∨ i = 14 ∨ i = 15 := by omega
+
+theorem bxor3 (a b : Bool) : (a != (b != a)) = b := by cases a <;> cases b <;> rfl
+
+theorem bv_ofNat_toNat16 (x : BitVec 16) : BitVec.ofNat 16 x.toNat = x := by simp
+
+/-- first appended byte: the table index is always 0xff -/
+theorem fcs_idx1 (f : BitVec 16) :
+    (f ^^^ ((f ^^^ 0xffff#16) &&& 0xff#16)) &&& 0xff#16 = 0xff#16 := by
+  ext i hi
+  rcases lt16_cases hi with rfl|rfl|rfl|rfl|rfl|rfl|rfl|rfl|rfl|rfl|rfl|rfl|rfl|rfl|rfl|rfl <;> simp
+
+/-- second appended byte: the table index does not depend on the state -/
+theorem fcs_idx2 (f t : BitVec 16) :
+    (((f >>> 8) ^^^ t) ^^^ (((f ^^^ 0xffff#16) >>> 8) &&& 0xff#16)) &&& 0xff#16
+      = (t ^^^ 0xff#16) &&& 0xff#16 := by
+  ext i hi
+  rcases lt16_cases hi with rfl|rfl|rfl|rfl|rfl|rfl|rfl|rfl|rfl|rfl|rfl|rfl|rfl|rfl|rfl|rfl <;> simp [bxor3]
+
+theorem fcs_hi (f t : BitVec 16) : ((f >>> 8) ^^^ t) >>> 8 = t >>> 8 := by
+  ext i hi
+  rcases lt16_cases hi with rfl|rfl|rfl|rfl|rfl|rfl|rfl|rfl|rfl|rfl|rfl|rfl|rfl|rfl|rfl|rfl <;> simp
+
+theorem fcsStep_first (f : BitVec 16) :
+    fcsStep f ((f ^^^ 0xffff#16) &&& 0xff#16).toNat = (f >>> 8) ^^^ fcsTab 255 := by
+  unfold fcsStep; rw [bv_ofNat_toNat16, fcs_idx1]; rfl
+
+theorem fcsStep_second (f t : BitVec 16) :
+    fcsStep ((f >>> 8) ^^^ t) (((f ^^^ 0xffff#16) >>> 8) &&& 0xff#16).toNat
+      = (t >>> 8) ^^^ fcsTab ((t ^^^ 0xff#16) &&& 0xff#16).toNat := by
+  unfold fcsStep; rw [bv_ofNat_toNat16, fcs_idx2, fcs_hi]
+
+/-- the only place the table VALUES matter: entries 0xff and (T[0xff] ^ 0xff) & 0xff -/
+theorem fcs_table_fact :
+    (fcsTab 255 >>> 8) ^^^ fcsTab ((fcsTab 255 ^^^ 0xff#16) &&& 0xff#16).toNat
+      = BitVec.ofNat 16 cFCS_GOOD := by decide
+
+theorem fcs_two_steps (f : BitVec 16) : (fcsBytes f).foldl fcsStep f = BitVec.ofNat 16 cFCS_GOOD := by
+  simp only [fcsBytes, List.foldl_cons, List.foldl_nil]
+  rw [fcsStep_first, fcsStep_second, fcs_table_fact]
+
+/-! ## SLIPMUX -/
+
+theorem coap_not_ip : isIp cFRAME_COAP = false := by decide
+
+theorem muxRead_of_complete {s res rest : List Nat} (h : readPacket s = (res, true, rest)) :
+    muxRead s = match muxAccept res with
+      | some (p, ft) => some (p, ft, rest)
+      | none => muxRead rest := by
+  rw [muxRead]; split
+  · rename_i h'; rw [h] at h'; simp at h'
+  · rename_i res' rest' h'; rw [h] at h'
+    simp only [Prod.mk.injEq, true_and] at h'
+    obtain ⟨rfl, rfl⟩ := h'; rfl
+
+theorem muxRead_of_incomplete {s res rest : List Nat} (h : readPacket s = (res, false, rest)) :
+    muxRead s = none := by
+  rw [muxRead]; split
+  · rfl
+  · rename_i res' rest' h'; rw [h] at h'; simp at h'
+
+theorem muxReadAll_some {s p rest : List Nat} {ft : Nat} (h : muxRead s = some (p, ft, rest)) :
+    muxReadAll s = (ft, p) :: muxReadAll rest := by
+  rw [muxReadAll]; split
+  · rename_i h'; rw [h] at h'; simp at h'
+  · rename_i p' ft' rest' h'; rw [h] at h'
+    simp only [Option.some.injEq, Prod.mk.injEq] at h'
+    obtain ⟨rfl, rfl, rfl⟩ := h'; rfl
+
+theorem muxReadAll_none {s : List Nat} (h : muxRead s = none) : muxReadAll s = [] := by
+  rw [muxReadAll]; split
+  · rfl
+  · rename_i p' ft' rest' h'; rw [h] at h'; simp at h'
+
+/-! ### chunked mux reader = flat mux reader -/
+
+theorem muxReadC_flat (s : Buffered) (hw : s.WF 1) :
+    (muxReadC s).map (fun r => (r.1, r.2.1, r.2.2.flat)) = muxRead s.flat
+    ∧ ∀ r, muxReadC s = some r → r.2.2.WF 1 := by
+  fun_induction muxReadC s
+  case case1 =>
+    have h := ‹readPacketC _ = _›
+    have := readGoC_flat _ [] false hw
+    unfold readPacketC at h
+    rw [h] at this
+    have hc : readPacket _ = (_, false, _) := this.1
+    rw [muxRead_of_incomplete hc]; simp
+  case case2 =>
+    rename_i hacc
+    have h := ‹readPacketC _ = _›
+    have := readGoC_flat _ [] false hw
+    unfold readPacketC at h
+    rw [h] at this
+    have hc : readPacket _ = (_, true, _) := this.1
+    rw [muxRead_of_complete hc, hacc]
+    refine ⟨by simp, ?_⟩
+    intro r hr; simp only [Option.some.injEq] at hr; subst hr; exact this.2
+  case case3 =>
+    rename_i hacc ih
+    have h := ‹readPacketC _ = _›
+    have := readGoC_flat _ [] false hw
+    unfold readPacketC at h
+    rw [h] at this
+    have hc : readPacket _ = (_, true, _) := this.1
+    rw [muxRead_of_complete hc, hacc]
+    exact ih this.2
+
+theorem muxReadAllC_flat (s : Buffered) (hw : s.WF 1) : muxReadAllC s = muxReadAll s.flat := by
+  fun_induction muxReadAllC s
+  case case1 =>
+    have h := ‹muxReadC _ = none›
+    have := (muxReadC_flat _ hw).1
+    rw [h] at this
+    rw [muxReadAll_none this.symm]
+  case case2 =>
+    rename_i ih
+    have h := ‹muxReadC _ = some _›
+    have hf := muxReadC_flat _ hw
+    rw [h] at hf
+    rw [muxReadAll_some hf.1.symm, ih (hf.2 _ rfl)]
 
 end WaVerif.C25
